@@ -418,6 +418,9 @@ func ExploreEpochs(c *core.Ctx, rep Report, light bool) {
 	if quick && light {
 		add(WV(3, 1), 5, 0)
 		kinds = []string{"same-object", "reweighted", "removed"}
+		if rep["restart"] {
+			kinds = append(kinds, "added") // a grown set: more branches than the old epoch's index knew
+		}
 	} else if quick {
 		add(WV(3, 1), 5, 0)
 		add(WV(5, 1, 1), 4, 0)
